@@ -279,6 +279,10 @@ func genRtmpSrvCase(t *rapid.T) RtmpSrvCase {
 func runRtmpPull(c RtmpSrvCase) *pbt.Violation {
 	s := newServer()
 	defer s.Close()
+	fd, v := startFeed(s)
+	if v != nil {
+		return v
+	}
 	hsk, chunks := c.wire()
 	hs := newHostileServerSeg(func(int) []segment {
 		gate := 1537 + 1536 + 12
@@ -294,7 +298,7 @@ func runRtmpPull(c RtmpSrvCase) *pbt.Violation {
 	if v := waitPullOver(s, hs, 1, "rtmp.(*ClientSession)", "rtmp"); v != nil {
 		return v
 	}
-	return probe(s)
+	return probe(s, fd)
 }
 
 // runRtmpPush: a healthy publisher publishes a stream of a server configured to relay-push to the hostile stub.
@@ -319,8 +323,9 @@ func runRtmpPush(c RtmpSrvCase) *pbt.Violation {
 		return v
 	}
 	fd.frames(1)
-	fd.p.Close()
-	return probe(s)
+	// the pushing stream's own publisher and subscriber are the bystanders here: a hostile push target must not cost
+	// the stream its input
+	return probe(s, fd)
 }
 
 func genRtmpPushCase(t *rapid.T) RtmpSrvCase {
@@ -345,6 +350,7 @@ func classifyRtmpSrv(c RtmpSrvCase) (bool, []string) {
 }
 
 func TestRtmpPullClient(t *testing.T) {
+	resetNotes()
 	pbt.Run(t, pbt.Spec[RtmpSrvCase]{
 		ID: "C13", Name: "client-rtmp-pull", Gen: genRtmpSrvCase, Run: runRtmpPull, Classify: classifyRtmpSrv, Isolate: true,
 		Quick: 500, Thorough: 2500,
@@ -352,6 +358,7 @@ func TestRtmpPullClient(t *testing.T) {
 }
 
 func TestRtmpPushClient(t *testing.T) {
+	resetNotes()
 	prev := logic.RelayPushTimeoutMs
 	logic.RelayPushTimeoutMs = 600 // as for the pulls: a failed attempt is kept until this timeout
 	defer func() { logic.RelayPushTimeoutMs = prev }()
@@ -417,13 +424,29 @@ type RtspSrvCase struct {
 	Audio        string        `json:"audio"`
 	Udp          bool          `json:"udp,omitempty"`           // lal asks for UDP transport (rtsp_mode 1)
 	GetParameter bool          `json:"get_parameter,omitempty"` // OPTIONS advertises GET_PARAMETER (lal then keeps the session alive with it)
+	// PrefixSdp: the valid DESCRIBE response carries this hostile-but-accepted description (genAcceptedSdp) instead of
+	// the reference one; the interleaved RTP that follows matches it
+	PrefixSdp *Sdp `json:"prefix_sdp,omitempty"`
 	Steps        []RtspSrvStep `json:"steps"`
 	Mut          Mut           `json:"mut"`
 	Slices       []int         `json:"slices,omitempty"`
 }
 
+// lal's client sets up the video track first, then the audio track, whatever their order in the description, and
+// numbers the interleaved channels in that order.
 func (c *RtspSrvCase) tracks() []trackInfo {
 	var out []trackInfo
+	if c.PrefixSdp != nil {
+		for _, media := range []string{"video", "audio"} {
+			for _, tr := range c.PrefixSdp.Tracks {
+				if tr.Media == media && tr.Control != "" {
+					out = append(out, trackInfo{codec: sdpCodec(tr), pt: tr.PT & 0x7f, ch: 2 * len(out)})
+					break
+				}
+			}
+		}
+		return out
+	}
 	for i, t := range validTracks(c.Video, c.Audio) {
 		codec := c.Audio
 		if t.Media == "video" {
@@ -456,11 +479,17 @@ func (c *RtspSrvCase) wire() []byte {
 		ok([][2]string{{"Public", public}}, nil)
 	case "described", "setup", "playing":
 		ok([][2]string{{"Public", public}}, nil)
-		ok([][2]string{{"Content-Type", "application/sdp"}, {"Content-Base", "rtsp://127.0.0.1/live/" + pullStream + "/"}}, rtspref.BuildSdp(tr))
+		body := rtspref.BuildSdp(tr)
+		nsetup := len(tr)
+		if c.PrefixSdp != nil {
+			body = c.PrefixSdp.Bytes()
+			nsetup = len(c.tracks())
+		}
+		ok([][2]string{{"Content-Type", "application/sdp"}, {"Content-Base", "rtsp://127.0.0.1/live/" + pullStream + "/"}}, body)
 		if c.Stage == "described" {
 			break
 		}
-		for i := range tr {
+		for i := 0; i < nsetup; i++ {
 			t := fmt.Sprintf("RTP/AVP/TCP;unicast;interleaved=%d-%d", 2*i, 2*i+1)
 			if c.Udp {
 				t = fmt.Sprintf("RTP/AVP/UDP;unicast;client_port=40000-40001;server_port=%d-%d", 42000+2*i, 42001+2*i)
@@ -550,7 +579,10 @@ func genRtspSrvCase(t *rapid.T) RtspSrvCase {
 		// EOF only then.  By design, and indistinguishable from a stuck session within any reasonable wait: not generated.
 		c.GetParameter = false
 	}
-	rc := &RtspCase{Stage: "recording", Video: c.Video, Audio: c.Audio}
+	if c.Stage != "none" && c.Stage != "options" && rapid.IntRange(0, 1).Draw(t, "prefixSdp") == 0 {
+		c.PrefixSdp = genAcceptedSdp(t)
+	}
+	rc := &RtspCase{Stage: "recording", Video: c.Video, Audio: c.Audio, trackOverride: c.tracks()}
 	st := &rtpGenState{seq: uint16(rapid.SampledFrom([]int{0, 65530}).Draw(t, "seq0")), ts: 1000, ssrc: rapid.SampledFrom([]uint32{0, 0x1234}).Draw(t, "ssrc")}
 	n := rapid.IntRange(1, 10).Draw(t, "nsteps")
 	frameBias := 2
@@ -576,6 +608,10 @@ func genRtspSrvCase(t *rapid.T) RtspSrvCase {
 func runRtspPull(c RtspSrvCase) *pbt.Violation {
 	s := newServer()
 	defer s.Close()
+	fd, v := startFeed(s)
+	if v != nil {
+		return v
+	}
 	wire := c.wire()
 	hs := newHostileServer(func(int) ([]byte, []int) { return wire, c.Slices })
 	defer hs.close()
@@ -589,7 +625,21 @@ func runRtspPull(c RtspSrvCase) *pbt.Violation {
 	if v := waitPullOver(s, hs, 1, "rtsp.(*ClientCommandSession)", "rtsp"); v != nil {
 		return v
 	}
-	return probe(s)
+	if c.Stage == "playing" || c.Stage == "setup" {
+		// did lal accept the (possibly hostile) description and go on?  Otherwise the case was shallow: counted
+		want := "PLAY "
+		if c.Stage == "setup" {
+			want = "SETUP "
+		}
+		if strings.Contains(hs.received(), want) {
+			note("client-rtsp-pull/prefix-accepted")
+		} else if c.PrefixSdp != nil {
+			note("client-rtsp-pull/shallow:hostile-prefix-sdp-refused")
+		} else {
+			note("client-rtsp-pull/shallow:valid-prefix-refused")
+		}
+	}
+	return probe(s, fd)
 }
 
 func classifyRtspSrv(c RtspSrvCase) (bool, []string) {
@@ -599,6 +649,18 @@ func classifyRtspSrv(c RtspSrvCase) (bool, []string) {
 	}
 	if c.GetParameter {
 		labels = append(labels, "get-parameter-keepalive")
+	}
+	if c.PrefixSdp != nil {
+		labels = append(labels, "prefix-sdp:hostile-but-accepted")
+		labels = append(labels, c.PrefixSdp.accLabels()...)
+		if c.Stage == "playing" {
+			for _, st := range c.Steps {
+				if st.Frame != nil && st.Frame.Rtp != nil {
+					labels = append(labels, "prefix-sdp:followed-by-matching-rtp")
+					break
+				}
+			}
+		}
 	}
 	for i, st := range c.Steps {
 		var l []string
@@ -639,6 +701,7 @@ func classifyRtspSrv(c RtspSrvCase) (bool, []string) {
 }
 
 func TestRtspPullClient(t *testing.T) {
+	resetNotes()
 	pbt.Run(t, pbt.Spec[RtspSrvCase]{
 		ID: "C13", Name: "client-rtsp-pull", Gen: genRtspSrvCase, Run: runRtspPull, Classify: classifyRtspSrv, Isolate: true,
 		Quick: 400, Thorough: 2000,
@@ -823,6 +886,7 @@ func classifyFlvSrv(c FlvSrvCase) (bool, []string) {
 }
 
 func TestHttpflvPullClient(t *testing.T) {
+	resetNotes()
 	pbt.Run(t, pbt.Spec[FlvSrvCase]{
 		ID: "C13", Name: "client-httpflv-pull", Gen: genFlvSrvCase, Run: runFlvPull, Classify: classifyFlvSrv, Isolate: true,
 		Quick: 500, Thorough: 2000,
